@@ -59,6 +59,9 @@ pub fn resolve_instruction(
     instr.matches = matches;
 
 
+    #[cfg(hlorenzi_customasm_verif)]
+    crate::verif::note("prev", crate::verif::bigint_of(&instr.encoding));
+
     // Check for stable resolution
     let is_stable =
         Some(&instr.encoding) == maybe_chosen_encoding.as_ref();
